@@ -65,6 +65,7 @@ class Ctx:
         self.members = dict(members or {})  # member name of *this -> int
         self.depth = depth
         self.ub = []                        # UB found inside an otherwise evaluated expression
+        self.arrays = {}                    # member array name -> {index: raw element value} (read through any pointer cast)
 
 
 def _callee_decl(ctx, n):
@@ -139,6 +140,17 @@ def ev(n, ctx):
                 return conv(ev(ir.ekids(decl)[-1], Ctx(ctx.d)), ir.qtype(decl))
             raise Unknown("member %s" % nm)
         raise Unknown("member of another object")
+    if k == "ArraySubscriptExpr":
+        base = ks[0]
+        while base.get("kind") in ("ImplicitCastExpr", "CXXReinterpretCastExpr", "CXXStaticCastExpr", "CStyleCastExpr", "ParenExpr", "CXXConstCastExpr") and ir.ekids(base):
+            base = ir.ekids(base)[-1]
+        if base.get("kind") == "MemberExpr" and base.get("name") in ctx.arrays:
+            idx = ev(ks[1], ctx)
+            mem = ctx.arrays[base.get("name")]
+            if idx not in mem:
+                raise Unknown("read of element %s of %s, which was not written" % (idx, base.get("name")))
+            return conv(mem[idx], ir.qtype(n))
+        raise Unknown("subscript of %s" % base.get("kind"))
     if k == "UnaryExprOrTypeTraitExpr" and n.get("name") == "sizeof":
         t = (n.get("argType") or {})
         q = t.get("desugaredQualType") or t.get("qualType")
@@ -219,6 +231,7 @@ def ev(n, ctx):
         if len(args) > len(ps):
             raise Unknown("argument count")
         sub = Ctx(ctx.d, {}, ctx.members, ctx.depth + 1)
+        sub.arrays = ctx.arrays
         for p, a in zip(ps, args):
             sub.env[p.get("id")] = conv(ev(a, ctx), ir.qtype(p)) if rng(ir.qtype(p)) else ev(a, ctx)
         for v in decls:
